@@ -288,7 +288,7 @@ macro_rules! dec_text {
     };
 }
 dec_text!(c03_dec_s_p0, c03_dec_s_p1, c03_dec_s_p2, c03_dec_s_p3, c03_dec_s_body, &str, Signature::Str, 8, 10, |_t| true);
-dec_text!(c03_dec_o_p0, c03_dec_o_p1, c03_dec_o_p2, c03_dec_o_p3, c03_dec_o_body, ObjectPath<'_>, Signature::ObjectPath, 8, 10, |t| crate::refmodel::names::object_path(t));
+dec_text!(c03_dec_o_p0, c03_dec_o_p1, c03_dec_o_p2, c03_dec_o_p3, c03_dec_o_body, ObjectPath<'_>, Signature::ObjectPath, 7, 10, |t| crate::refmodel::names::object_path(t));
 
 /// Dynamic (`Value`) target for string-like signatures: the path taken for every variant payload
 /// (`ValueSeed::visit_borrowed_str`), which must apply the same validity rules as the typed path.
